@@ -42,6 +42,10 @@ const (
 
 // State is the symbolic machine state at a program point.
 type State struct {
+	// dirty[c]: component c may differ from its function-entry version at
+	// objects that existed at entry (a write with a base not known to be fresh,
+	// or a loop havoc, happened). Clean components get direct frame facts.
+	dirty map[string]bool
 	heap  map[string]Term
 	alloc Term
 	reach Term
@@ -50,9 +54,12 @@ type State struct {
 }
 
 func (s *State) clone() *State {
-	n := &State{heap: make(map[string]Term, len(s.heap)), alloc: s.alloc, reach: s.reach, ghost: map[string]Term{}}
+	n := &State{heap: make(map[string]Term, len(s.heap)), alloc: s.alloc, reach: s.reach, ghost: map[string]Term{}, dirty: map[string]bool{}}
 	for k, v := range s.heap {
 		n.heap[k] = v
+	}
+	for k, v := range s.dirty {
+		n.dirty[k] = v
 	}
 	for k, v := range s.ghost {
 		n.ghost[k] = v
@@ -105,6 +112,8 @@ type VC struct {
 	noSafe   int // >0: suppress SAFE emission (spec evaluation)
 	enabled  map[string]bool
 	known    map[string]bool
+	freshRefs map[string]bool               // constants returned by alloc (known fresh)
+	preRefs   map[string]bool               // terms denoting objects that existed at function entry
 	lits     map[string]bool                // string literals seen (closed terms)
 	litFuncs map[string]func(string) string // uninterpreted string functions evaluable on literals
 	seenObl  map[string]bool
@@ -112,7 +121,7 @@ type VC struct {
 
 func newVC(eng *Engine, name string, classes map[string]bool) *VC {
 	vc := &VC{eng: eng, name: name, declared: map[string]bool{}, comps: map[string]*Sort{}, entry: map[string]Term{},
-		classes: classes, oblCount: map[string]int{}, fset: eng.fset, usedExt: map[string]bool{}, usedSpec: map[string]bool{}, inlined: map[string]bool{}, known: map[string]bool{}, seenObl: map[string]bool{}, lits: map[string]bool{}, litFuncs: map[string]func(string) string{}}
+		classes: classes, oblCount: map[string]int{}, fset: eng.fset, usedExt: map[string]bool{}, usedSpec: map[string]bool{}, inlined: map[string]bool{}, known: map[string]bool{}, seenObl: map[string]bool{}, freshRefs: map[string]bool{}, preRefs: map[string]bool{}, lits: map[string]bool{}, litFuncs: map[string]func(string) string{}}
 	vc.A0 = vc.fresh("A0", SInt)
 	vc.fact(Ge(vc.A0, One))
 	return vc
@@ -290,6 +299,7 @@ func (vc *VC) havoc(st *State, name string) Term {
 // component Ty) so that invariants can quantify over objects of one kind.
 func (vc *VC) alloc(st *State, hint string, kind string) Term {
 	r := vc.fresh("r_"+hint, SInt)
+	vc.freshRefs[r.S] = true
 	vc.fact(Eq(r, st.alloc))
 	a := vc.fresh("A", SInt)
 	vc.fact(Eq(a, Add(st.alloc, One)))
@@ -342,7 +352,14 @@ func (vc *VC) join(ins []*State) *State {
 	if len(ins) == 1 {
 		return ins[0].clone()
 	}
-	out := &State{heap: map[string]Term{}, ghost: map[string]Term{}}
+	out := &State{heap: map[string]Term{}, ghost: map[string]Term{}, dirty: map[string]bool{}}
+	for _, s := range ins {
+		for k, v := range s.dirty {
+			if v {
+				out.dirty[k] = true
+			}
+		}
+	}
 	var reaches []Term
 	for _, s := range ins {
 		reaches = append(reaches, s.reach)
@@ -492,16 +509,45 @@ func (vc *VC) registerLoc(l *Loc) {
 	}
 }
 
+// at returns the version of component name to read at object base: the
+// function-entry version when the component is clean in st and base is known
+// to be an object that existed at entry (canonical terms across calls).
+func (vc *VC) at(st *State, name string, base Term) Term {
+	if !st.dirty[name] && vc.preRefs[base.S] && name != "Ty" && name != "Mine" {
+		if _, written := st.heap[name]; written {
+			return vc.get(&State{}, name)
+		}
+	}
+	return vc.get(st, name)
+}
+
+// notePre records that a loaded reference leaf denotes a pre-existing object.
+func (vc *VC) notePre(c Term, name string, t Term) {
+	if strings.HasSuffix(c.S, "@0|") || strings.HasSuffix(c.S, "@0") {
+		if isRefComp(name) {
+			vc.preRefs[t.S] = true
+		}
+	}
+}
+
 func (vc *VC) load(st *State, l *Loc) Val {
 	vc.registerLoc(l)
 	v := Val{T: l.T}
 	for _, lf := range layout(l.T) {
-		c := vc.get(st, vc.locComp(l, lf.Suffix))
+		name := vc.locComp(l, lf.Suffix)
+		c := vc.get(st, name)
+		if l.Kind != LGlobal {
+			c = vc.at(st, name, l.Base)
+		}
 		switch l.Kind {
 		case LObj:
-			v.L = append(v.L, Select(c, l.Base))
+			t := Select(c, l.Base)
+			vc.notePre(c, name, t)
+			v.L = append(v.L, t)
 		case LElem:
-			v.L = append(v.L, Select(Select(c, l.Base), l.Idx))
+			t := Select(Select(c, l.Base), l.Idx)
+			vc.notePre(c, name, t)
+			v.L = append(v.L, t)
 		case LGlobal:
 			v.L = append(v.L, c)
 		}
@@ -518,9 +564,16 @@ func (vc *VC) store(st *State, l *Loc, v Val) {
 	for i, lf := range lay {
 		name := vc.locComp(l, lf.Suffix)
 		c := vc.get(st, name)
+		if l.Kind != LGlobal && !vc.freshRefs[l.Base.S] {
+			st.markDirty(name)
+		}
 		switch l.Kind {
 		case LObj:
 			vc.set(st, name, Store(c, l.Base, v.L[i]))
+			if vc.freshRefs[v.L[i].S] {
+				// reading the field back yields the same fresh reference
+				vc.freshRefs[Select(st.heap[name], l.Base).S] = true
+			}
 		case LElem:
 			vc.set(st, name, Store(c, l.Base, Store(Select(c, l.Base), l.Idx, v.L[i])))
 		case LGlobal:
@@ -636,4 +689,11 @@ func (vc *VC) prelude() []string {
 		}
 	}
 	return out
+}
+
+func (st *State) markDirty(name string) {
+	if st.dirty == nil {
+		st.dirty = map[string]bool{}
+	}
+	st.dirty[name] = true
 }
